@@ -144,5 +144,5 @@ unsafe fn t_drop(_p: *const ()) {
 /// A fresh handle to task waker `id` (counts as one outstanding reference).
 pub fn task_waker(id: usize) -> Waker {
     F.with(|f| f.task_outstanding.set(f.task_outstanding.get() + 1));
-    unsafe { Waker::from_raw(RawWaker::new(id as *const (), &TASK_VTABLE)) }
+    unsafe { Waker::from_raw(RawWaker::new(std::ptr::without_provenance(id), &TASK_VTABLE)) }
 }
